@@ -1,4 +1,202 @@
+//! C07 — finite valid colours never produce NaN, infinity or a panic.
+//! Boundary lattice of every colour type (each component exactly on a bound, exactly zero, or at
+//! least 1e-9 of its range away from them; hues at sector edges) through every discovered
+//! conversion (unclamped and clamped), clamp, and the operator / blend / difference families.
+use pg::{Graph, Kind};
+use pv::fl::Fl;
+use pv::{json, Collector, Ctx, Mode, Tier, Value};
+
+fn f64s<T: Fl>(v: &[T]) -> Vec<f64> {
+    v.iter().map(|x| x.to64()).collect()
+}
+fn hex<T: Fl>(v: &[T]) -> Vec<String> {
+    v.iter().map(|x| format!("{:#x}", x.bits64())).collect()
+}
+fn fin<T: Fl>(v: &[T]) -> bool {
+    v.iter().all(|x| x.finite())
+}
+fn nonfinite_kind<T: Fl>(v: &[T]) -> &'static str {
+    if v.iter().any(|x| x.to64().is_nan()) {
+        "NaN"
+    } else {
+        "inf"
+    }
+}
+
+/// degenerate-boundary class of a source colour (part of the signature)
+fn boundary_class(kind: &Kind, v: [f64; 3]) -> &'static str {
+    let xyz = kind.to_xyz(v);
+    if !xyz.iter().all(|x| x.is_finite()) {
+        return "ref-nonfinite";
+    }
+    let s = xyz[0] + xyz[1] + xyz[2];
+    if xyz.iter().all(|x| x.abs() < 1e-12) {
+        "black"
+    } else if xyz[1].abs() < 1e-12 {
+        "zero-luminance"
+    } else if xyz.iter().any(|x| *x < -1e-9) {
+        "imaginary(negative XYZ)"
+    } else if s != 0.0 && xyz[1] / s < 1e-2 {
+        "imaginary(y<0.01)"
+    } else {
+        "ordinary"
+    }
+}
+
+fn values_for<T: Fl>(g: &Graph<T>, a: usize, dense: bool) -> Vec<[T; 3]> {
+    let kind = g.nodes[a].kind;
+    let mut out: Vec<[T; 3]> = kind.lattice(dense).into_iter().map(|v| [T::from64(v[0]), T::from64(v[1]), T::from64(v[2])]).collect();
+    out.sort_by_key(|v| [v[0].bits64(), v[1].bits64(), v[2].bits64()]);
+    out.dedup_by_key(|v| [v[0].bits64(), v[1].bits64(), v[2].bits64()]);
+    out
+}
+
+fn run_graph<T: Fl>(ctx: &Ctx, g: &Graph<T>, dense: bool, total: &mut Collector) {
+    let sub = format!("conversions/{}/{}", g.name, T::NAME);
+    if !ctx.wants(&sub) {
+        return;
+    }
+    let n = g.n();
+    let vals: Vec<Vec<[T; 3]>> = (0..n).map(|a| values_for(g, a, dense)).collect();
+    let mut items = vec![];
+    for a in 0..n {
+        let per = 128;
+        let mut i = 0;
+        while i < vals[a].len() {
+            items.push((a, i, (i + per).min(vals[a].len())));
+            i += per;
+        }
+    }
+    let (items_ref, vals_ref) = (&items, &vals);
+    let cc = pv::par::run_chunks(items.len(), |ci, c| {
+        let (a, lo, hi) = items_ref[ci];
+        let ka = g.nodes[a].kind;
+        let (mut st, mut tr) = (0u64, 0u64);
+        for i in lo..hi {
+            let v = vals_ref[a][i];
+            st += 1;
+            let cls = boundary_class(&ka, [v[0].to64(), v[1].to64(), v[2].to64()]);
+            let mk = |what: &str, b: usize, obs: Value| json!({"sub": "conversion", "group": g.name, "float": T::NAME, "what": what, "path": [g.nodes[a].name, g.nodes[b].name], "input": hex(&v), "value": f64s(&v), "observed": obs, "expected": "finite components, no panic"});
+            for b in 0..n {
+                for (what, f) in [("from_color_unclamped", g.unc[a][b]), ("from_color", g.clamped[a][b])] {
+                    let Some(f) = f else { continue };
+                    tr += 1;
+                    match pv::catch(|| f(v)) {
+                        Err(msg) => c.violation(&format!("C07/{}/{}/{}/{}->{}/panic/{}", what, g.name, T::NAME, g.nodes[a].name, g.nodes[b].name, cls), 1.0, || mk(what, b, json!({"panic": msg}))),
+                        Ok(r) => {
+                            if !fin(&r) {
+                                c.violation(&format!("C07/{}/{}/{}/{}->{}/{}/{}", what, g.name, T::NAME, g.nodes[a].name, g.nodes[b].name, nonfinite_kind(&r), cls), 1.0, || mk(what, b, json!(r.iter().map(|x| format!("{}", x.to64())).collect::<Vec<_>>())));
+                            }
+                            c.outcome(r[0].bits64() ^ r[1].bits64().rotate_left(21) ^ r[2].bits64().rotate_left(42));
+                        }
+                    }
+                }
+            }
+            if let Some((cl, _)) = g.clamp[a] {
+                tr += 1;
+                match pv::catch(|| cl(v)) {
+                    Err(msg) => c.violation(&format!("C07/clamp/{}/{}/panic", g.nodes[a].name, T::NAME), 1.0, || mk("clamp", a, json!({"panic": msg}))),
+                    Ok(r) => {
+                        if !fin(&r) {
+                            c.violation(&format!("C07/clamp/{}/{}/{}", g.nodes[a].name, T::NAME, nonfinite_kind(&r)), 1.0, || mk("clamp", a, json!(f64s(&r))));
+                        }
+                    }
+                }
+            }
+            c.sample(pv::splitmix((ci as u64) << 20 | i as u64), || json!({"group": g.name, "float": T::NAME, "node": g.nodes[a].name, "value": f64s(&v), "class": cls}));
+        }
+        c.add(&sub, st, tr, tr, st);
+    });
+    total.merge(cc);
+    total.exhaustive(&sub, true, &format!("{} nodes: every value of the {} boundary lattice of each node through every discovered unclamped and clamped conversion and clamp", n, if dense { "dense" } else { "coarse" }));
+}
+
+// ---------------------------------------------------------------------------------------
+// operators, blend modes and colour differences on boundary pairs
+
+mod ops;
+
+macro_rules! with_graph {
+    ($group:expr, $float:expr, |$g:ident| $body:expr) => {
+        match ($group, $float) {
+            ("D65-core", "f32") => { let $g = pga::d65_f32(); $body }
+            ("D65-core", "f64") => { let $g = pgb::d65_f64(); $body }
+            ("D65-cylindrical", "f32") => { let $g = pgc::d65cyl_f32(); $body }
+            ("D65-cylindrical", "f64") => { let $g = pgc::d65cyl_f64(); $body }
+            ("D50", "f32") => { let $g = pgd::d50_f32(); $body }
+            ("D50", "f64") => { let $g = pgd::d50_f64(); $body }
+            ("DCI", "f32") => { let $g = pgd::dci_f32(); $body }
+            ("DCI", "f64") => { let $g = pgd::dci_f64(); $body }
+            ("A", "f32") => { let $g = pgd::a_f32(); $body }
+            ("A", "f64") => { let $g = pgd::a_f64(); $body }
+            ("E", "f32") => { let $g = pgd::e_f32(); $body }
+            ("E", "f64") => { let $g = pgd::e_f64(); $body }
+            (g, f) => { eprintln!("unknown graph {g}/{f}"); std::process::exit(3) }
+        }
+    };
+}
+
+fn replay(c: &mut Collector, rep: &Value) {
+    let case = &rep["case"];
+    let float = case["float"].as_str().unwrap_or("f32").to_string();
+    let inbits = |v: &Value| -> Vec<u64> { v.as_array().map(|a| a.iter().map(|x| u64::from_str_radix(x.as_str().unwrap_or("0").trim_start_matches("0x"), 16).unwrap_or(0)).collect()).unwrap_or_default() };
+    match case["sub"].as_str().unwrap_or("") {
+        "conversion" => {
+            let group = case["group"].as_str().unwrap_or("").to_string();
+            let path: Vec<String> = case["path"].as_array().map(|a| a.iter().map(|x| x.as_str().unwrap_or("").to_string()).collect()).unwrap_or_default();
+            let what = case["what"].as_str().unwrap_or("").to_string();
+            let b = inbits(&case["input"]);
+            fn go<T: Fl>(g: &Graph<T>, path: &[String], what: &str, b: &[u64], sig: &str, case: &Value, c: &mut Collector) {
+                let (ia, ib) = (g.index(&path[0]).expect("node"), g.index(&path[1]).expect("node"));
+                let v = [T::from_bits64(b[0]), T::from_bits64(b[1]), T::from_bits64(b[2])];
+                let f = match what {
+                    "from_color_unclamped" => g.unc[ia][ib],
+                    "from_color" => g.clamped[ia][ib],
+                    _ => g.clamp[ia].map(|x| x.0),
+                };
+                let r = pv::catch(|| f.expect("edge")(v));
+                println!("{} {:?} -> {} : {:?}", path[0], f64s(&v), path[1], r.as_ref().map(|x| f64s(x)));
+                if !matches!(&r, Ok(x) if fin(x)) {
+                    c.violation(sig, 1.0, || case.clone());
+                }
+            }
+            let sig = rep["signature"].as_str().unwrap_or("C07/replay").to_string();
+            with_graph!(group.as_str(), float.as_str(), |g| go(&g, &path, &what, &b, &sig, case, c));
+        }
+        _ => ops::replay(c, rep),
+    }
+}
+
 fn main() {
-    eprintln!("C07: check not built yet");
-    std::process::exit(3);
+    pv::main_guard(real_main)
+}
+
+fn real_main() -> i32 {
+    let (ctx, mode) = Ctx::from_args("C07");
+    if let Mode::Replay(rep) = mode {
+        let mut c = Collector::new();
+        replay(&mut c, &rep);
+        return ctx.finish_replay(c);
+    }
+    let mut total = Collector::new();
+    let dense = ctx.tier == Tier::Thorough;
+    run_graph(&ctx, &pga::d65_f32(), dense, &mut total);
+    run_graph(&ctx, &pgb::d65_f64(), dense, &mut total);
+    run_graph(&ctx, &pgc::d65cyl_f32(), dense, &mut total);
+    run_graph(&ctx, &pgc::d65cyl_f64(), dense, &mut total);
+    run_graph(&ctx, &pgd::d50_f32(), dense, &mut total);
+    run_graph(&ctx, &pgd::d50_f64(), dense, &mut total);
+    run_graph(&ctx, &pgd::dci_f32(), dense, &mut total);
+    run_graph(&ctx, &pgd::dci_f64(), dense, &mut total);
+    run_graph(&ctx, &pgd::a_f32(), dense, &mut total);
+    run_graph(&ctx, &pgd::a_f64(), dense, &mut total);
+    run_graph(&ctx, &pgd::e_f32(), dense, &mut total);
+    run_graph(&ctx, &pgd::e_f64(), dense, &mut total);
+    ops::run(&ctx, &mut total);
+    ctx.finish(
+        total,
+        "model_checking",
+        "states = boundary-lattice colours per type (each component exactly on a bound of its documented range, exactly zero, or >= 1e-9 of the range away; hues at sector edges) and ordered pairs of them for the binary operations; transitions = operations executed (conversions, clamp, operators, blend modes, differences); the invariant (finite, no panic) is evaluated on every result; every state is non-trivial",
+        &["the invariant needs no reference model; panics are observed through catch_unwind", "colours strictly between lattice points are not explored"],
+    )
 }
